@@ -381,3 +381,21 @@ def c05_big_payload(nb: int, c1: int, disc: int, atyp: int, with_method: bool) -
     s = head + payload
     cuts = [c1] if with_method else sorted(set([2, max(c1, 2)]))
     return _run('CONNECT', s, cuts, disc if with_method else disc + (len(cuts) - 1))
+
+
+_LONG = (0, 1, 127, 128, 129, 200, 255)
+
+
+@cond(quick=dict(parts=[{'rt': r} for r in (1, 2)], budget=150))
+def c05_long_name(nl: int, c1: int, disc: int, rt: int) -> str:
+    """a RESOLVE / RESOLVE_PTR success reply that carries a DOMAINNAME of 0..255 octets (lengths around the signed-byte boundary), cut at
+    one symbolic offset"""
+    nl = api.pick_from(nl, _LONG)
+    with api.no_tracing():
+        name = bytes(97 + (i % 26) for i in range(nl))
+        s = b'\x05\x00' + b'\x05\x00\x00\x03' + bytes([nl]) + name + b'\x00\x00'
+        offs = sorted(set(o for o in (0, 1, 2, 5, 6, 7, 8, 9, 7 + nl // 2, 6 + nl, 7 + nl, 8 + nl, len(s) - 1, len(s)) if 0 <= o <= len(s)))
+    c1 = api.pick_from(c1, offs)       # cut points around the header, the length octet, the middle and the end of the name
+    disc = api.pick(disc, 0, 2)
+    with api.no_tracing():
+        return _run(RT[rt], s, [c1], disc)
